@@ -143,4 +143,57 @@ PROPS = {
         "bounded": ["try_batching: K-extracted bounded harness (thorough tier, when built)"],
         "assumptions": ["C14's RaftLog contracts (proved there)", "RaftCore functions are verified in mode S (fatal!/panic! abort): clauses hold on every normal return"],
     },
+    "C03": {
+        "title": "Leader completeness and the election restriction",
+        "modules": ["top", "prelude", "pb", "inflights", "progress", "quorum", "tracker", "log_unstable", "storage_trait", "raft_log", "raft"],
+        "body": {"P": ["log_unstable", "raft_log"], "S": ["log_unstable", "raft_log", "raft"]},
+        "modes": ["P", "S"],
+        "claim": "PARTIAL (second sentence of the statement: the election restriction, per call)",
+        "decided": [
+            "Raft::step: every Msg(Pre)VoteResponse with reject == false pushed while handling a (pre-)vote request implies that the "
+            "candidate's (log_term, index) is lexicographically >= the voter's own (last_term, last_index), in every role and state; "
+            "no other message type makes step emit a grant",
+            "RaftLog::is_up_to_date / last_term / last_index equal the model (C14)",
+            "maybe_commit_by_vote moves the commit index only through RaftLog::maybe_commit (term of that index must match) and keeps term and vote",
+        ],
+        "undecided": [
+            "leader completeness (first sentence): needs the cluster-wide induction over all schedules",
+            "the role handlers step_leader / step_follower / step_candidate / hup are ASSUMED not to emit grants (their bodies are not under contract in this revision)",
+        ],
+        "assumptions": ["raft.rs functions are verified in mode S (fatal!/panic! abort): clauses hold on every normal return",
+                        "assumed handler contract step_frame (term monotone, one vote per term, msgs append-only, no grants)"],
+    },
+    "C06": {
+        "title": "Promises survive crashes: persist-before-send, one vote per term",
+        "modules": ["top", "prelude", "pb", "inflights", "progress", "quorum", "tracker", "log_unstable", "storage_trait", "raft_log", "raft"],
+        "body": {"S": ["raft"]},
+        "modes": ["S"],
+        "claim": "PARTIAL (per-call: term monotone, one vote per term, restart state; the release discipline of Ready is added with the raw_node unit)",
+        "decided": [
+            "Raft::step: term never decreases; within a term the vote changes only from 'none' and, for vote requests, only to the requesting candidate of a real vote at that term",
+            "reset/become_follower/become_candidate/become_pre_candidate: vote is cleared only together with a term change; a candidate votes for itself in the new term; a pre-candidate keeps term and vote",
+            "load_state installs exactly the stored (term, vote, commit) and aborts on a commit outside [committed, last]",
+            "RaftCore::send only fills from/term/priority and pushes exactly one message",
+        ],
+        "undecided": [
+            "'never behind anything it has told another node' across a crash: a statement about the application's write/fsync/send order",
+            "role handlers are assumed to satisfy step_frame",
+        ],
+        "assumptions": ["mode S", "assumed handler contract step_frame", "R10: the iter_mut loop of reset is assumed to reset every progress as written"],
+    },
+    "C16": {
+        "title": "PreVote + CheckQuorum: a node that cannot win does not disrupt the cluster",
+        "modules": ["top", "prelude", "pb", "inflights", "progress", "quorum", "tracker", "log_unstable", "storage_trait", "raft_log", "raft"],
+        "body": {"S": ["raft"]},
+        "modes": ["S"],
+        "claim": "PARTIAL (first sentence and the lease rule, per call)",
+        "decided": [
+            "Raft::step with a MsgRequestPreVote never changes the receiver's term or vote, in any state",
+            "lease rule: a (pre-)vote request with a higher term and without the transfer context, arriving while check_quorum && a leader is known && "
+            "election_elapsed < election_timeout, returns Ok with NO field of the node changed and no message pushed",
+            "become_pre_candidate keeps term and vote",
+        ],
+        "undecided": ["non-disruption of a lock-step majority over all schedules of the minority (second sentence)"],
+        "assumptions": ["mode S", "assumed handler contract step_frame"],
+    },
 }
